@@ -157,6 +157,18 @@ struct HmHarness : HarnessBase {
 			seen[k] = val(it->template get<1>());
 		}
 		if(seen != ref) fail("iteration:set", "iterated entry set differs from the reference");
+		// an iterator is a position: find(a) and find(b) compare equal exactly when a == b (keys that share a bucket included),
+		// != is the negation, and walking from begin() the position find(k) is met exactly once
+		for(auto &ka : ref) for(auto &kb : ref) {
+			auto fa = x.find(KS::make(ka.first)), fb = x.find(KS::make(kb.first));
+			if((fa == fb) != (ka.first == kb.first)) fail("iterator:equality", "find(" + std::to_string(ka.first) + ") == find(" + std::to_string(kb.first) + ") is " + ((fa == fb) ? "true" : "false"));
+			if((fa != fb) == (fa == fb)) fail("iterator:equality", "operator!= of iterators is not the negation of operator==");
+		}
+		for(auto &kv : ref) {
+			auto target = x.find(KS::make(kv.first)); int met = 0; guard = 0;
+			for(auto it = x.begin(); it != x.end() && ++guard <= ref.size() + 2; ++it) if(it == target) { met++; if(it->template get<0>() != KS::make(kv.first)) fail("iterator:equality", "a walk from begin() compares equal to find(k) at another entry"); }
+			if(met != 1) fail("iterator:equality", "walking from begin(), the position find(" + std::to_string(kv.first) + ") is met " + std::to_string(met) + " times");
+		}
 		// const_iterator (obtainable from const find() only): walking on from any present key visits distinct present
 		// entries and ends at end(); operator* and operator bool of both iterator kinds
 		for(auto &kv0 : ref) {
